@@ -55,6 +55,12 @@ func checkC15(c *Ctx) {
 	}
 	c.Decides("INDEX-SYNC: a loop of package tree that looks names up in a NodeIndex built before it and inserts nodes into the tree adds each inserted node to that index")
 	c.indexSync("INDEX-SYNC", c.AllFuncs("tree"))
+	c.Decides("KEY-RAW (shared with C05): every access to the name index's map in tree/nodeindex.go is keyed by a name as it is, on the storing and on the looking-up side alike (InsertIdenticalTips finds the model tip it was given)")
+	c.indexKeysRaw("KEY-RAW", "add exactly the requested tips")
+	c.Floor("KEY-RAW", 4)
+	c.Decides("CMD-REACHES: in the repopulate command nothing between the head of the loop over the input trees and the call of InsertIdenticalTips leaves the iteration except under an error test")
+	c.cmdReaches("CMD-REACHES", "cmd/repopulate.go", []string{"InsertIdenticalTips"}, "inserting tips")
+	c.Floor("CMD-REACHES", 1)
 	c.Floor("INDEX-SYNC", 1)
 	c.Floor("MAKE-APPEND", 10)
 	c.Floor("FIELDS", 12)
